@@ -8,5 +8,7 @@ CONSTANTS
   CallSeeds = {"s1", "s2"}
   F = 3
   Blocks = {0, 1, 3, 4, 12, 13, 24, 15}
-  MaxCalls = 2
-INVARIANTS TypeOK LeaderIsOperator LeaderIgnoresOrderAndRepetition LeaderRankDependsOnSeedAndSize ChecklistShape HeartbeatBySeedOnly ChecklistDeterministic SeedDeterministic
+  MaxCalls = 3
+  Execs = {"e1"}
+  Stateless = TRUE
+INVARIANTS TypeOK ExecCounts LeaderIsOperator LeaderIgnoresOrderAndRepetition LeaderHistoryIndependent LeaderIdempotent LeaderRankDependsOnSeedAndSize ChecklistShape HeartbeatBySeedOnly ChecklistHistoryIndependent SeedHistoryIndependent
